@@ -59,7 +59,9 @@ Fixpoint all_some {A} (l : list (option A)) : option (list A) :=
   | x :: r => match x, all_some r with Some a, Some r' => Some (a :: r') | _, _ => None end
   end.
 
-(* what the public function returns; the face-mapping array is present iff it was requested *)
+(* what the public function returns.  The model always computes the face mapping; the code returns it only when
+   ret_face_mapping is set (the correspondence compares it when it was requested).  A mask whose length is not the number of
+   faces is outside the model: the code rejects it with ValueError in its shape check (property C20). *)
 Record mesh_out (F : Type) := MkOut { mo_v : list (vec3 F); mo_f : list face; mo_map : list nat }.
 Arguments MkOut {F}. Arguments mo_v {F}. Arguments mo_f {F}. Arguments mo_map {F}.
 
@@ -291,7 +293,9 @@ End SlicingZ.
    wrapper first converts the vertices (np.asarray(vertices, dtype=np.float64), fixes/C02-vertex-dtype.diff) and finally asserts
    float64 / int64 / int64. *)
 Inductive vdtype := VF64 | VF32 | VF16 | VInt.
-Inductive idtype := I64 | I32.
+(* integer dtypes a face array may come in; every index array that is returned is int64 *)
+Inductive idtype := I64 | I32 | I16 | I8 | U8 | U32 | U64.
+Definition signed_dtype (d : idtype) : bool := match d with U8 | U32 | U64 => false | _ => true end.
 Record out_dtypes := MkDt { dt_v : vdtype; dt_f : idtype; dt_map : idtype }.
 Inductive spath := PZeroVerts | PEmpty | PKeptOnly | PCut.
 
@@ -302,10 +306,21 @@ Definition kernel_dtypes (vdt : vdtype) (p : spath) : out_dtypes :=
   | PKeptOnly => MkDt vdt I64 I64
   | PCut => MkDt VF64 I64 I64
   end.
-(* the wrapper: asarray(float64) on the way in (convert = true: the code as it is; false: the code before
-   fixes/C02-vertex-dtype.diff), the three dtype assertions on the way out *)
-Definition wrapper_dtypes (convert : bool) (vdt_given : vdtype) (p : spath) : result out_dtypes :=
-  let d := kernel_dtypes (if convert then VF64 else vdt_given) p in
+(* unique_bincount refuses an array whose dtype kind is not "i" (ValueError "input must be 1D integers!"): the nothing-cut return
+   hands it faces[inside] in the dtype it was given; the cut path hands it np.append(faces[inside], <int64 faces>), which is int64
+   except for uint64 input (promoted to float64); the other two returns do not renumber *)
+Definition kernel_faces_ok (fdt : idtype) (p : spath) : bool :=
+  match p with
+  | PZeroVerts | PEmpty => true
+  | PKeptOnly => signed_dtype fdt
+  | PCut => match fdt with U64 => false | _ => true end
+  end.
+(* the wrapper: np.asarray(vertices, float64) and np.asarray(faces, FACE_DTYPE) on the way in (convert_v / convert_f = true: the
+   code with fixes/C02-vertex-dtype.diff = /repo 1119c57 and fixes/C02-unsigned-faces.diff; false: the code before them), the
+   three dtype assertions on the way out *)
+Definition wrapper_dtypes (convert_v convert_f : bool) (vdt_given : vdtype) (fdt_given : idtype) (p : spath) : result out_dtypes :=
+  if negb (kernel_faces_ok (if convert_f then I64 else fdt_given) p) then Raise ValueError else
+  let d := kernel_dtypes (if convert_v then VF64 else vdt_given) p in
   match dt_v d, dt_f d, dt_map d with
   | VF64, I64, I64 => Ok d
   | _, _, _ => Raise AssertionError
@@ -333,7 +348,7 @@ Section SlicingDtypes.
         | Some fds => Ok (fds_path fds)
         end).
 
-  Definition slice_triangles_by_plane_dtypes (vdt_given : vdtype) (vs : list (vec3 F)) (fs : list face) (ref n : vec3 F)
+  Definition slice_triangles_by_plane_dtypes (vdt_given : vdtype) (fdt_given : idtype) (vs : list (vec3 F)) (fs : list face) (ref n : vec3 F)
              (faces_to_slice : option (list bool)) : result out_dtypes :=
-    rbind (slice_faces_plane_path (merge_tol O) vs fs n ref (option_map flatnonzero faces_to_slice)) (wrapper_dtypes true vdt_given).
+    rbind (slice_faces_plane_path (merge_tol O) vs fs n ref (option_map flatnonzero faces_to_slice)) (wrapper_dtypes true true vdt_given fdt_given).
 End SlicingDtypes.
